@@ -890,6 +890,20 @@ func (i *interpreter) scheduleConstraints() {
 			s.Assert(smt.IntCmp("<", tsVar(e.src), tsVar(e)))
 		}
 	}
+	// reads-from under a common lock: a read inside a critical section that observed, in the extracted
+	// run, the value another thread wrote inside a critical section of the same mutex (the pool's lists
+	// handing an instance from one request to the next) keeps that order in every schedule of this
+	// control path - the path's control and data flow depend on it, and such pairs cannot race anyway
+	lastWrite := map[int]*event{}
+	for _, e := range evs {
+		if e.kind == "write" {
+			lastWrite[e.obj] = e
+		} else if e.kind == "read" {
+			if w := lastWrite[e.obj]; w != nil && w.th != e.th && commonLock(w.locks, e.locks) {
+				s.Assert(smt.IntCmp("<", tsVar(w), tsVar(e)))
+			}
+		}
+	}
 	// mutual exclusion
 	type section struct{ l, u *event }
 	secs := map[int][]section{}
